@@ -129,21 +129,25 @@ func (q *Queue) Add(elem *queue.Elem) (err error) {
 		if q.inflightDrained && q.current == nil {
 			return
 		}
+		// front is the oldest non-inflight message.
+		var front *list.Element
 		for e := q.current; e != nil; e = e.Next() {
 			// inflight messages (publish or pubrel) that have not been re-read yet are not candidates.
 			pub, ok := e.Value.(*queue.Elem).MessageWithID.(*queue.Publish)
-			if !ok {
+			if !ok || pub.ID() != 0 {
 				continue
 			}
 			// drop expired non-inflight message
-			if pub.ID() == 0 &&
-				queue.ElemExpiry(now, e.Value.(*queue.Elem)) {
+			if queue.ElemExpiry(now, e.Value.(*queue.Elem)) {
 				dropElem = e
 				dropErr = queue.ErrDropExpired
 				return
 			}
+			if front == nil {
+				front = e
+			}
 			// drop qos0 message in the queue
-			if pub.ID() == 0 && pub.QoS == packets.Qos0 && dropElem == nil {
+			if pub.QoS == packets.Qos0 && dropElem == nil {
 				dropElem = e
 			}
 		}
@@ -153,13 +157,9 @@ func (q *Queue) Add(elem *queue.Elem) (err error) {
 		if elem.MessageWithID.(*queue.Publish).QoS == packets.Qos0 {
 			return
 		}
-
-		if q.inflightDrained {
-			// drop the front message
-			dropElem = q.current
-			return
-		}
-		// the messages in the queue are all inflight messages, drop the current elem
+		// drop the front message,
+		// or the current elem if the messages in the queue are all inflight messages.
+		dropElem = front
 		return
 	}
 	return nil
